@@ -21,12 +21,12 @@ EXT = {"json": "json", "yaml": "yaml", "toml": "toml", "env": "env", "flags": "t
 FAULT_KINDS = ["eisdir", "enospc", "efbig", "nonutf8_source", "dangling_source"]
 PROBES = ["dual_built_before_importer", "dual_built_after_importer", "shared_lib_two_entries", "failing_first", "failing_middle",
           "failing_last", "same_basename_pair", "second_run_over_artifacts", "listed_twice", "dir_walk_order_differs_from_sorted",
-          "respelled_argument", "failing_lib_imported"]
+          "respelled_argument", "failing_lib_imported", "directory_and_files_mixed"]
 TIERS = {
     "quick": {"runs": 230, "wall_cap": 210},
     "thorough": {"runs": 5000, "wall_cap": 3300, "reexecute": 60},
 }
-FAILS = ["syntax", "type", "runtime", "runtime_opaque", "convert", "missing_import", "post_out"]
+FAILS = ["syntax", "type", "runtime", "runtime_opaque", "convert", "missing_import", "post_out", "lazy_missing_import", "lazy_broken_import"]
 SPELL = ["plain", "dot", "dotdot", "redundant", "abs"]
 
 
@@ -97,6 +97,11 @@ def generate(rng, tier, idx):
         o = rng.shuffle(list(range(n)))[:rng.between(1, min(3, n))]
         scheds.append({"mode": "files", "order": o + [o[0]], "abs": False, "spell": ["plain"] * (len(o) + 1), "twice": True})
     scheds.append({"mode": rng.choice(["dir_r", "noargs_r", "noargs", "dir_r_abs"])})
+    subdirs = sorted(set(os.path.dirname(f["path"]) for f in files if "/" in f["path"]))
+    if subdirs and rng.chance(40):
+        # a directory and single files mixed in one argument list (a file may get built twice that way)
+        o = rng.shuffle(list(range(n)))[:rng.between(1, min(3, n))]
+        scheds.append({"mode": "mixed", "dir": rng.choice(subdirs).split("/")[0], "order": o, "dir_first": rng.chance(50), "recurse": rng.chance(50)})
     world["schedules"] = scheds
     return world
 
@@ -156,6 +161,11 @@ def render_file(world, i, root_abs):
         L.append('let broken = idf(1) + idf("a");')
     elif fail == "missing_import":
         L.append('let broken = import "./does-not-exist-%s.ucg";' % f["uid"])
+    elif fail == "lazy_missing_import":
+        # never evaluated: only the ahead-of-time link step of the build notices the missing file
+        L.append('let never_called = func (x) => (import "./does-not-exist-%s.ucg").id;' % f["uid"])
+    elif fail == "lazy_broken_import":
+        L.append('let maybe = select ("a", "dflt") => { a = "taken", b = (import "./broken-%s.ucg").id };' % f["uid"])
     if f["out"]:
         if fail == "convert":
             L.append("out toml {id = id, bad = NULL};")
@@ -235,6 +245,9 @@ class Copy:
                 sb.symlink(self.proj + "/" + f["path"], "/nonexistent/ucgsim-target.ucg")
             else:
                 sb.write(self.proj + "/" + f["path"], render_file(world, i, self.abs))
+            if f["fail"] == "lazy_broken_import":
+                d = os.path.dirname(f["path"])
+                sb.write(self.proj + "/" + (d + "/" if d else "") + "broken-%s.ucg" % f["uid"], "let id = ;\n")
         fault = world["fault"]
         if fault and fault["kind"] in ("eisdir", "enospc"):
             art = artifact_rel(files[fault["file"]])
@@ -367,6 +380,9 @@ def execute(world, sb, res):
                     res.probe("respelled_argument")
                 args.append(c.abs + "/" + p if sc["abs"] else p)
             argv = flags + ["build"] + args
+        elif mode == "mixed":
+            fargs = [files[i]["path"] for i in sc["order"]]
+            argv = flags + ["build"] + (["-r"] if sc["recurse"] else []) + ([sc["dir"]] + fargs if sc["dir_first"] else fargs + [sc["dir"]])
         elif mode == "dir_r":
             argv = flags + ["build", "-r", "."]
         elif mode == "dir_r_abs":
@@ -392,16 +408,41 @@ def execute(world, sb, res):
             res.history.append({"batch": [c.norm(sb.norm(a)) for a in argv], "rep": rep, "status": inv.status, "signal": inv.signal,
                                 "built": [[b[1], b[2]] for b in built], "arts": sorted(arts), "out": out})
             order = [b[0] for b in built if b[0] is not None]
-            unknown = [b[1] for b in built if b[0] is None]
+            unknown = [b[1] for b in built if b[0] is None and not os.path.basename(b[1]).startswith("broken-")]
             if unknown:
                 res.harness_error = "cannot map printed path(s) %s to a file of the world" % unknown
                 return
+            helper_failed = any(b[2] for b in built if b[0] is None)   # the deliberately broken helper file met by a directory walk
+            helper_built = any(b[0] is None for b in built)
+            built = [b for b in built if b[0] is not None]
+            # every file of the set is built: argv order for explicit files, the walked set for directories
+            if mode == "files":
+                want = list(sc["order"])
+                if order != want:
+                    res.violate("C16.not-built", "files", "files given on the command line: %s; files actually built, in order: %s\n%s" % (
+                        [files[i]["path"] for i in want], [files[i]["path"] for i in order],
+                        "argv: %s\n--- exit=%s\n%s" % (" ".join(c.norm(sb.norm(a)) for a in argv), inv.status, out[-1500:])))
+            elif mode in ("dir_r", "dir_r_abs", "noargs_r", "noargs"):
+                want = sorted(i for i in range(n) if mode != "noargs" or "/" not in files[i]["path"])
+                if sorted(order) != want:
+                    res.violate("C16.not-built", "walk", "the directory walk (%s) should build %s but built %s\n%s" % (
+                        mode, [files[i]["path"] for i in want], [files[i]["path"] for i in order],
+                        "argv: %s\n--- exit=%s\n%s" % (" ".join(c.norm(sb.norm(a)) for a in argv), inv.status, out[-1500:])))
+            elif mode == "mixed":
+                want = set(sc["order"]) | set(i for i in range(n) if files[i]["path"].startswith(sc["dir"] + "/") and
+                                              (sc["recurse"] or files[i]["path"].count("/") == 1))
+                if set(order) != want:
+                    res.violate("C16.not-built", "mixed", "directory %s plus files %s should build %s but built %s\n%s" % (
+                        sc["dir"], [files[i]["path"] for i in sc["order"]], sorted(files[i]["path"] for i in want), [files[i]["path"] for i in order],
+                        "argv: %s\n--- exit=%s\n%s" % (" ".join(c.norm(sb.norm(a)) for a in argv), inv.status, out[-1500:])))
             if mode != "files" and order != sorted(order, key=lambda i: files[i]["path"]):
                 res.probe("dir_walk_order_differs_from_sorted")
             if rep == 1:
                 res.probe("second_run_over_artifacts")
             if sc.get("twice"):
                 res.probe("listed_twice")
+            if mode == "mixed":
+                res.probe("directory_and_files_mixed")
             ctx = "argv: %s (cwd <W>/proj, %s)%s\n--- exit=%s signal=%s\n%s" % (
                 " ".join(c.norm(sb.norm(a)) for a in argv), "second run in place" if rep else "first run on a pristine tree",
                 "" if world["strict"] else " --no-strict", inv.status, inv.signal, out[-1500:])
@@ -420,8 +461,8 @@ def execute(world, sb, res):
                                     [files[j]["path"] for j in seen_before], ctx))
                 seen_before.append(i)
             # (2) exit status = OR over files
-            any_failed_alone = any(alone[i]["failed"] for i in order)
-            any_failed_batch = any(b[2] for b in built)
+            any_failed_alone = any(alone[i]["failed"] for i in order) or helper_built
+            any_failed_batch = any(b[2] for b in built) or helper_failed
             if (inv.status != 0) != any_failed_batch:
                 res.violate("C16.exit-status", "stream", "exit status %s but the output shows %s failing file(s)\n%s" % (
                     inv.status, sum(1 for b in built if b[2]), ctx))
@@ -507,6 +548,8 @@ def shrink_candidates(world):
                     if not keep:
                         continue
                     ns.append(dict(sc, order=[k[0] for k in keep], spell=[k[1] for k in keep]))
+                elif sc["mode"] == "mixed":
+                    ns.append(dict(sc, order=[ri(i) for i in sc["order"] if i != d]))
                 else:
                     ns.append(sc)
             if not ns:
